@@ -151,13 +151,22 @@ def check(ctx):
     for call, _ in wk:
         ctx.require_at("R01-d", done, call, [["not self._tasks", "self._on_completed_fut is not None"]],
                        instance="host woken only by the last child", what="wake-up")
-    # and it *is* woken: no path on which the set was found empty and a future is pending skips the wake-up
-    tests = [n for n in own_walk(done.node) if isinstance(n, ast.If) and
-             {F(ast.unparse(v)) for v in (n.test.values if isinstance(n.test, ast.BoolOp) and isinstance(n.test.op, ast.And) else [n.test])}
-             == {F("self._on_completed_fut is not None"), F("not self._tasks")}]
-    ctx.ob("R01-d", done, "the wake-up condition is exactly `future pending and live set empty`", len(tests) == 1,
-           detail="" if tests else "no `if self._on_completed_fut is not None and not self._tasks:` guarding the wake-up (a stronger condition leaves the host asleep for ever)",
-           by=("exact conjunct set",))
+    # and it *is* woken (must-form): the callback may return without a wake-up attempt only if it established that there is no
+    # future to resolve, that children are left, or that the future is already resolved (EAFP and LBYL spellings alike)
+    def step_w(st, e, c):
+        return True if e == "wake" else st        # (an attempt that raised InvalidStateError counts: the future was already resolved)
+
+    def at_exit_w(kind, st, facts):
+        if kind == "return" and not st:
+            excused = (F("self._on_completed_fut is None") in facts or ("self._tasks", True) in facts
+                       or ("self._on_completed_fut.done()", True) in facts)
+            if not excused:
+                return ("the done-callback returns without waking the host although the live set may be empty and a join future pending "
+                        "(a stronger wake-up condition leaves the host asleep for ever)")
+        return None
+
+    ctx.paths("R01-d", done, [("wake", "self._on_completed_fut.set_result($*A)")], step_w, False, at_exit_w,
+              instance="the wake-up condition is exactly `future pending and live set empty`")
     # scope membership is dropped too
     rs = ctx.sites(done, "$S._tasks.remove($X)")
     ctx.ob("R01-d", done, "child removed from its cancel scope and from the group", len(rs) >= 2,
